@@ -81,8 +81,10 @@ class SList(Sym):
     symbolic index (memoised on the syntactic index term), or None when the list is over
     a z3 sequence ``seq``.
     ``uid``: name used for measures.
+    ``parts``: None for a base sequence, or -- for a concatenation -- the list of its pieces
+    ``('elem', value)`` / ``('base', SList)`` in order (structural normal form, used by str.join).
     """
-    __slots__ = ('length', 'elem', 'uid', 'cache', 'seq', 'immutable')
+    __slots__ = ('length', 'elem', 'uid', 'cache', 'seq', 'immutable', 'parts')
 
     def __init__(self, length, elem, uid, seq=None):
         self.length = length
@@ -91,6 +93,7 @@ class SList(Sym):
         self.cache = {}
         self.seq = seq
         self.immutable = True
+        self.parts = None
 
     def __repr__(self):
         return 'SList(%s, len=%s)' % (self.uid, self.length)
